@@ -3,3 +3,4 @@ import MiniconfVerif.Props.C10
 #print axioms MiniconfVerif.C10.dump_completes
 #print axioms MiniconfVerif.C10.dump_entry_points
 #print axioms MiniconfVerif.C10.api_dump_busy
+#print axioms MiniconfVerif.C10.source_iter_dump_is_model
